@@ -172,8 +172,7 @@ def formatter_level(check, P):
                 check.violation("R1", f"style:{sym}:suffix", f"open comment style {sym!r} yields a suffix {suffix!r}", d)
                 continue
             check.ok("R1", f"style {sym!r}: {prefix!r} <text, removed {len(t.removed)} characters> {suffix!r}")
-    if n < len(styles):
-        raise AnalysisError(f"C09.R1: {n} paths for {len(styles)} styles")
+    check.floor(n >= len(styles), f"C09.R1: {n} paths for {len(styles)} styles")
     return n, len(styles)
 
 
@@ -199,8 +198,7 @@ def run(check, repo, tier):
         if len(check.samples) < 8 and r["items"]:
             check.sample({"command": r["command"], "context": r["ctx"], "abstract_paths": r["paths"], "text_flows": len(r["items"])})
     need = {"comment", "annotate", "emergency_halt", "move", "rapid", "probe", "set_axis", "auto_home"}
-    if not need <= sources:
-        raise AnalysisError(f"C09.R2: no caller-text flow seen for {sorted(need - sources)} (anchor floor)")
+    check.floor(not (not need <= sources), f"C09.R2: no caller-text flow seen for {sorted(need - sources)} (anchor floor)")
     n1, ns = formatter_level(check, cr.program)
     check.analysed = dict(cr.stats, text_flows=n_ok, commands_with_text=sorted(sources), comment_styles=ns, formatter_paths=n1)
     check.coverage["exhaustive"] = tier == "thorough"
